@@ -39,7 +39,7 @@ type processedMetric struct {
 	Name         string
 	Attributes   map[string]string
 	TimeUnixNano uint64
-	Value        uint64
+	Value        float64
 }
 
 func ProcessMetricsIngest(ctx *fasthttp.RequestCtx, myid int64) {
@@ -82,7 +82,7 @@ func ingestMetrics(request *collmetricspb.ExportMetricsServiceRequest, myid int6
 				extractedMetrics := processMetric(metrics)
 				for _, metric := range extractedMetrics {
 					dpCount++
-					data, err := ConvertToOTLPMetricsFormat(metric, int64(metric.TimeUnixNano), float64(metric.Value))
+					data, err := ConvertToOTLPMetricsFormat(metric, int64(metric.TimeUnixNano), metric.Value)
 					if err != nil {
 						numFailedDps++
 						log.Errorf("OLTPMetrics: failed to ConvertToOTLPMetricsFormat data=%+v, err=%v", data, err)
@@ -156,7 +156,7 @@ func processMetric(metric *metricspb.Metric) []processedMetric {
 				Name:         metric.Name,
 				Attributes:   extractAttributes(dataPoint.Attributes),
 				TimeUnixNano: dataPoint.TimeUnixNano,
-				Value:        uint64(dataPoint.GetAsDouble()),
+				Value:        numberDataPointValue(dataPoint),
 			})
 		}
 		return extracted
@@ -168,7 +168,7 @@ func processMetric(metric *metricspb.Metric) []processedMetric {
 				Name:         metric.Name,
 				Attributes:   extractAttributes(dataPoint.Attributes),
 				TimeUnixNano: dataPoint.TimeUnixNano,
-				Value:        uint64(dataPoint.GetAsDouble()),
+				Value:        numberDataPointValue(dataPoint),
 			})
 		}
 		return extracted
@@ -181,7 +181,7 @@ func processMetric(metric *metricspb.Metric) []processedMetric {
 				Name:         metric.Name,
 				Attributes:   extractAttributes(dataPoint.Attributes),
 				TimeUnixNano: dataPoint.TimeUnixNano,
-				Value:        dataPoint.Count,
+				Value:        float64(dataPoint.Count),
 			})
 		}
 		return extracted
@@ -194,7 +194,7 @@ func processMetric(metric *metricspb.Metric) []processedMetric {
 				Name:         metric.Name,
 				Attributes:   extractAttributes(dataPoint.Attributes),
 				TimeUnixNano: dataPoint.TimeUnixNano,
-				Value:        uint64(dataPoint.Scale),
+				Value:        float64(dataPoint.Scale),
 			})
 		}
 		return extracted
@@ -207,13 +207,22 @@ func processMetric(metric *metricspb.Metric) []processedMetric {
 				Name:         metric.Name,
 				Attributes:   extractAttributes(dataPoint.Attributes),
 				TimeUnixNano: dataPoint.TimeUnixNano,
-				Value:        dataPoint.Count,
+				Value:        float64(dataPoint.Count),
 			})
 		}
 		return extracted
 	}
 
 	return extracted
+}
+
+// numberDataPointValue returns the value of a gauge/sum data point, which is either a double or
+// an integer (the "value" oneof of NumberDataPoint).
+func numberDataPointValue(dataPoint *metricspb.NumberDataPoint) float64 {
+	if _, ok := dataPoint.Value.(*metricspb.NumberDataPoint_AsInt); ok {
+		return float64(dataPoint.GetAsInt())
+	}
+	return dataPoint.GetAsDouble()
 }
 
 func ConvertToOTLPMetricsFormat(data processedMetric, timestamp int64, value float64) ([]byte, error) {
